@@ -5,7 +5,8 @@ Writes /verif/seeded/<id>/meta.json and /verif/seeded/RESULTS.json."""
 import json, os, re, shutil, subprocess, sys, time
 from pathlib import Path
 V = Path("/verif"); M = Path("/tmp/matrix"); R = M / "repo"; W = M / "verif"
-only = sys.argv[1:]  # optional list of seed ids
+own_only = "--own" in sys.argv          # run only the check of the property the seed was written against
+only = [a for a in sys.argv[1:] if not a.startswith("--")]  # optional list of seed ids
 def sh(cmd, **kw): return subprocess.run(cmd, shell=True, text=True, capture_output=True, **kw)
 if not R.exists():
     M.mkdir(parents=True, exist_ok=True)
@@ -38,7 +39,7 @@ for d in sorted((V / "seeded").iterdir()):
         results[sid] = dict(applies=False, error=a.stderr[-300:]); print(sid, "PATCH DOES NOT APPLY"); continue
     det = {}
     t0 = time.time()
-    for p in claimed:
+    for p in ([sid.split("_")[0]] if own_only else claimed):
         r = sh(f"./check {p} --tier quick", cwd=W, env=dict(os.environ, CARGO_TARGET_DIR=f"{W}/.build/cargo"))
         v = [l for l in r.stdout.splitlines() if l.startswith("VIOLATION")]
         if v or r.returncode != 0:
@@ -57,7 +58,7 @@ for d in sorted((V / "seeded").iterdir()):
     notes = (d / "notes.md").read_text()[:1500] if (d / "notes.md").exists() else ""
     meta = dict(id=sid, breaks_property=prop, origin="independent sub-agent given only the property text and a scratch worktree",
                 confirmation=conf, what_it_needs=notes, patch_file=patch.name,
-                ran=[f"git apply {patch.name} (in an isolated worktree)", "every claimed ./check <Cxx> --tier quick", "git checkout -- ."],
+                ran=[f"git apply {patch.name} (in an isolated worktree)", ("./check " + sid.split("_")[0] + " --tier quick (the property it was written against)") if own_only else "every claimed ./check <Cxx> --tier quick", "git checkout -- ."],
                 detected_by=sorted(det), detection_details=det)
     (d / "meta.json").write_text(json.dumps(meta, indent=1))
     resf.write_text(json.dumps(results, indent=1))
